@@ -1,9 +1,9 @@
 (* Executable model of the relation / nested-dict / heap-list constructors of bigtree (property C13).
 
    bigtree/tree/construct.py
-     713-759   list_to_tree_by_relation        (a DataFrame of (parent, child) pairs, then 1038-1163)
-     1038-1163 dataframe_to_tree_by_relation   } the same function on a *row list*
-     1275-1401 polars_to_tree_by_relation      } (child, parent-or-null, attribute columns)
+     714-760   list_to_tree_by_relation        (a DataFrame of (parent, child) pairs, then 1041-1166)
+     1041-1166 dataframe_to_tree_by_relation   } the same function on a *row list*
+     1278-1404 polars_to_tree_by_relation      } (child, parent-or-null, attribute columns)
      852-927   nested_dict_to_tree
    bigtree/utils/assertions.py  assert_dataframe_no_duplicate_children, filter_attributes
    bigtree/binarytree/construct.py:11-53  list_to_binarytree
@@ -62,8 +62,9 @@ Definition dup_children (rows : list row) : bool :=
   let dc := data_check rows in
   existsb (fun pr => Nat.ltb 1 (count_child (fst pr) dc)) dc.
 
-(* root inference, construct.py:1115-1123:
-     root_names = set(child of rows with null parent); root_names.update(set(parent) - set(child) - {None}) *)
+(* root inference, construct.py:1120-1128 (pandas), 1357-1365 (polars):
+     root_names = set(child of rows with null parent); root_names.update(set(non-null parents) - set(child))
+   (pandas: set(data[parent_col].dropna()) since fix F12 - None, NaN and pd.NA all mean "no parent"; polars: - {None}) *)
 Definition null_children (rows : list row) : list str :=
   map rchild (filter (fun r => match rparent r with None => true | Some _ => false end) rows).
 
@@ -74,7 +75,7 @@ Definition root_names (rows : list row) : list str :=
   dedupe_str (null_children rows ++
               filter (fun p => negb (mem_str p (map rchild rows))) (parent_names rows)).
 
-(* data[data[parent_col] == name], in row order *)
+(* data[data[parent_col] == name], in row order (read as records since fix F9: row labels play no role) *)
 Definition child_rows (rows : list row) (pname : str) : list row :=
   filter (fun r => ostr_eqb (rparent r) (Some pname)) rows.
 
